@@ -87,13 +87,16 @@ def theorem(o):
             proof = ("exact lshr_s x _ _ y _ _ %s %s %s %s" % (D, D, D, hc)) if s2 else ("exact lshr_u x _ _ y _ %s %s %s" % (D, D, hc))
     elif cls == "shlc":
         head = "%s : %s x = .ok (GoArith.shlMath %s x %d)" % (X, n, b(s), o["c"])
-        proof = "exact shl_const %s x _ _ _ %s %s %d %s" % (b(s), D, D, o["c"], D)
+        if o["c"] >= w:
+            proof = "exact shl_const_big %s x _ _ _ %s %s %d %s" % (b(s), D, D, o["c"], D)
+        else:
+            proof = "exact shl_const %s x _ _ _ %s %s %d %s" % (b(s), D, D, o["c"], D)
     elif cls == "shrc":
         head = "%s : %s x = .ok (GoArith.shrMath %s x %d)" % (X, n, b(s), o["c"])
         if s:
-            proof = "exact ashr_const x _ %s %d %s" % (D, o["c"], D)
+            proof = ("exact ashr_const_big x _ %s %s %d %s" % (D, D, o["c"], D)) if o["c"] >= w else ("exact ashr_const x _ %s %d %s" % (D, o["c"], D))
         else:
-            proof = "exact lshr_const x _ _ _ %s %s %d %s" % (D, D, o["c"], D)
+            proof = ("exact lshr_const_big x _ _ _ %s %s %d %s" % (D, D, o["c"], D)) if o["c"] >= w else ("exact lshr_const x _ _ _ %s %s %d %s" % (D, D, o["c"], D))
     elif cls == "conv":
         w2 = o["w2"]
         head = "%s : %s x = .ok (GoArith.conv %s %d x)" % (X, n, b(s), w2)
